@@ -57,6 +57,7 @@ pub fn check_cmd(args: &[String]) -> i32 {
         "C08" => c08(&a),
         "C10" => c10(&a),
         "C14" => c14(&a),
+        "C11" => c11(&a),
         "C12" => c12(&a),
         "C13" => c13(&a),
         "C15" => c15(&a),
@@ -951,4 +952,99 @@ fn merge_reports(a: &mut Report, b: Report) {
     a.violations.truncate(10);
     a.known.extend(b.known);
     a.machinery_errors.extend(b.machinery_errors);
+}
+
+/// Histories shared by the crash and fault engines.
+pub fn io_histories(max_len: usize) -> Vec<(String, Vec<Op>, u64)> {
+    let ops = [
+        Op::w(0, 1),
+        Op::Write { k: 1, ts: 2, meta: None, size: 5 * 1024 },
+        Op::Write { k: 2, ts: 3, meta: None, size: 90 * 1024 },
+        Op::d(0, 4),
+        Op::Rot,
+        Op::TryClose,
+    ];
+    let mut out: Vec<(String, Vec<Op>, u64)> = Vec::new();
+    let mut frontier: Vec<Vec<Op>> = vec![vec![]];
+    for _ in 0..max_len {
+        let mut next = Vec::new();
+        for h in &frontier {
+            for op in ops {
+                let mut hh = h.clone();
+                hh.push(op);
+                next.push(hh);
+            }
+        }
+        for h in &next {
+            out.push((h.iter().map(|o| o.short()).collect::<Vec<_>>().join(";"), h.clone(), 1_000_000));
+        }
+        frontier = next;
+    }
+    // fixed longer seeds
+    out.push(("seed-delete-closed-deferred".into(), vec![Op::w(0, 1), Op::Rot, Op::d(0, 4), Op::Tick, Op::w(1, 5)], 1_000_000));
+    out.push(("seed-reopen-append".into(), vec![Op::w(0, 1), Op::Rst, Op::w(1, 2), Op::d(0, 4)], 1_000_000));
+    out.push(("seed-two-rotations".into(), vec![Op::w(0, 1), Op::Rot, Op::w(1, 2), Op::Rot, Op::w(0, 5)], 1_000_000));
+    out.push(("seed-overflow".into(), vec![Op::w(0, 1), Op::w(1, 2), Op::w(0, 5), Op::w(1, 6)], 2));
+    out.push(("seed-restore".into(), vec![Op::w(0, 1), Op::TryClose, Op::TryRestore, Op::w(1, 2)], 1_000_000));
+    out
+}
+
+fn c11(a: &Args) -> Report {
+    use crate::engines::fault::{self, FaultSpec};
+    let thorough = a.tier == "thorough";
+    let mut specs = Vec::new();
+    for (name, h, max_data) in io_histories(if thorough { 3 } else { 2 }) {
+        for mode in [IoMode::Inplace, IoMode::Background] {
+            if !thorough && mode == IoMode::Background && !name.starts_with("seed") {
+                continue;
+            }
+            let mut s = FaultSpec::new(&format!("C11/{name}/{mode:?}"), mode, h.clone());
+            s.wcfg.max_data_in_blob = max_data;
+            specs.push(s);
+        }
+    }
+    let r = fault::run(&specs, thorough, false, a.threads);
+    let mut violations = Vec::new();
+    let mut machinery = Vec::new();
+    for v in &r.violations {
+        if v.findings.iter().any(|f| f.kind == "machinery") {
+            machinery.push(format!("{}: {:?}", v.spec.name, v.findings));
+            continue;
+        }
+        let desc = format!(
+            "[{}] fail {:?} #{} on {:?} files with {:?} :: {}",
+            v.spec.name, v.plan.op, v.plan.nth, v.plan.class, v.plan.kind, v.findings[0].detail
+        );
+        violations.push((json!({"engine": "fault", "spec": v.spec, "plan": v.plan, "findings": v.findings}), desc));
+    }
+    let by_kind = {
+        let mut m = std::collections::BTreeMap::new();
+        for v in &r.violations {
+            *m.entry(v.findings[0].kind.clone()).or_insert(0usize) += 1;
+        }
+        m
+    };
+    violations.truncate(12);
+    Report {
+        property: "C11".into(),
+        tier: a.tier.clone(),
+        seed: a.seed,
+        level: "fault_enumeration".into(),
+        coverage: json!({
+            "evaluations": r.stats.runs,
+            "distinct_nontrivial": r.stats.distinct_outcomes,
+            "rule": "for each history: one run per (operation kind in {create, open, write, sync, truncate, rename, remove, mkdir[, read]} x file class x n-th occurrence in the fault-free run x {ENOSPC, EIO, short write keeping 1 / half / all-but-one bytes}); distinct_nontrivial = distinct vectors of (per-step outcome, step at which the fault fired, quarantine count)",
+            "samples": r.stats.samples,
+            "exhaustive": true,
+            "histories": r.stats.histories,
+            "placements_not_reached": r.stats.placements_not_reached,
+            "violations_total": r.stats.violations,
+            "violations_by_kind": by_kind,
+        }),
+        assumptions: vec!["one fault per run; default schedule (background work runs to quiescence after each operation)".into()],
+        wall_s: 0.0,
+        violations,
+        known: vec![],
+        machinery_errors: machinery,
+    }
 }
